@@ -244,3 +244,28 @@ package wmpt
 //@      | ==> heapof(valueNode.value) == old(heapof(valueNode.value)) && heapof(valueNode.weight) == old(heapof(valueNode.weight))      #clean-interior-result-means-nothing-written
 //@   ensures err == nil && n2 is *valueNode && n2.(*valueNode) != nil && n2 == node && !n2.(*valueNode).dirty
 //@      | ==> heapof(valueNode.value) == old(heapof(valueNode.value)) && heapof(valueNode.weight) == old(heapof(valueNode.weight))                      #clean-value-means-not-overwritten
+
+// ================= C13: checkpoint and rollback (the local part: the root handed back) =================
+//@ func (*WeightedMerkleTrie).SaveRoot
+//@   props C13
+//@   mode wrap
+//@   requires t != nil
+//@   assigns t.oldRoot, t.created
+//@   ensures t.root != nil && !(t.root is *shortNode) ==> t.oldRoot.weight == W0(t.root)            #checkpoint-records-the-weight
+//@   ensures t.created == nil                                                                       #created-list-restarts
+//@ func (*WeightedMerkleTrie).Rollback
+//@   props C13
+//@   mode wrap
+//@   requires t != nil && t.deleted != nil && (len(t.created) > 0 ==> t.db != nil)
+//@   assigns t.root, t.created, t.tempDeleted, mapof(t.deleted)
+//@   ensures old(t.oldRoot.weight) > 0 ==> t.root is *hashNode && t.root.(*hashNode) != nil && t.root.(*hashNode).weight == old(t.oldRoot.weight) && t.root.(*hashNode).hash == old(t.oldRoot.hash)      #root-is-the-checkpoint
+//@   ensures old(t.oldRoot.weight) == 0 ==> t.root == iface(emptyNode)                                     #empty-checkpoint-gives-the-empty-trie
+//@   ensures len(t.created) == 0 && t.tempDeleted == nil && len(t.deleted) == 0                     #bookkeeping-is-reset
+//@   loop 1 invariant batcher != nil
+//@ func (*WeightedMerkleTrie).RollbackTrie
+//@   props C13
+//@   mode wrap
+//@   requires t != nil && t.root != nil && t.deleted != nil && (len(t.created) > 0 ==> t.db != nil)
+//@   assigns t.root, t.created, mapof(t.deleted)
+//@   ensures t.root == old(t.root) || t.root == node || t.root == iface(emptyNode)                         #root-is-the-given-checkpoint
+//@   loop 1 invariant batcher != nil
